@@ -307,6 +307,9 @@ def _l2_inv(it, env, g):
         'unvisited_entries_untouched': z3.ForAll([k], z3.Implies(z3.Not(z3.Select(V, k)), z3.And(
             z3.Select(L.dom, k) == z3.Select(L0.dom, k), z3.Select(L.val, k) == z3.Select(L0.val, k)))),
         'need_fetch_iff_some_entry_raised': zbool(nf) == z3.Exists([k], z3.And(z3.Select(V, k), raised)),
+        'need_notif_iff_unknown_node_or_visited_entry_behind': zbool(it.truth(env['need_notif'])) == z3.Or(
+            z3.Exists([k], z3.And(z3.Select(R.dom, k), z3.Not(z3.Select(L0.dom, k)))),
+            z3.Exists([k], z3.And(z3.Select(V, k), get0(L0, k) > z3.Select(R.val, k)))),
     }
 
 
@@ -323,7 +326,9 @@ class sync_handler(Contract):
            'or a vector claiming more for this node than it produced is ignored entirely (no state change, no callback); '
            'otherwise the local vector becomes the entry-wise maximum of its previous value and the received entries (never '
            'decreasing, other nodes untouched) and the missing-data callback fires exactly once iff some entry was raised; '
-           'nothing is raised')
+           'a steady instance enters suppression iff the sender is behind in some entry or names a node unknown here, and '
+           'the merge of that period then starts as exactly this vector (nothing of an earlier period survives); in '
+           'suppression the merge becomes the entry-wise maximum with this vector and the timer is left running; nothing is raised')
     raises = {}
     loops = {1: LoopSpec(_l1_inv, ghost=_l1_ghost, havoc={'rsv_dict': _l1_havoc_R, 'rsv': lambda it, env, g: None,
                                                         'rsv_id': lambda it, env, g: None, 'rsv_seq': lambda it, env, g: None},
@@ -383,6 +388,26 @@ class sync_handler(Contract):
                                                        z3.Select(L.val, z3.Select(es.ids, j)) >= 0)))
         some_raised = z3.Exists([k], z3.And(z3.Select(R.dom, k), raised))
         out['callback_iff_some_entry_raised'] = zbool(len(missing.calls) == 1) == some_raised
+        # the merge of the vectors heard during a suppression period (what on_timer compares the local vector with)
+        st0 = SvsState[next(v for n, kk, v in run.inputs if n == 'state')]
+        A, A0 = self.d['agg_sv'].sym, g['svs.agg0']
+        ev = g['svs']['event']
+        behind = z3.Exists([k], z3.And(z3.Select(R.dom, k), z3.Or(z3.Not(z3.Select(L0.dom, k)), get0(L0, k) > z3.Select(R.val, k))))
+        if st0 is SvsState.SyncSuppression:
+            out['suppression_period_accumulates_every_vector_heard'] = And(
+                self.d['state'] is SvsState.SyncSuppression,
+                z3.ForAll([k], z3.If(z3.Select(R.dom, k),
+                                     z3.And(z3.Select(A.dom, k), z3.Select(A.val, k) == zmax(get0(A0, k), z3.Select(R.val, k))),
+                                     z3.And(z3.Select(A.dom, k) == z3.Select(A0.dom, k), z3.Select(A.val, k) == z3.Select(A0.val, k)))))
+            out['running_suppression_timer_not_restarted'] = ev.sets == 0
+        elif self.d['state'] is SvsState.SyncSuppression:
+            out['suppression_entered_only_when_the_sender_is_behind_or_names_unknown_nodes'] = behind
+            out['a_new_suppression_period_starts_from_this_vector_alone'] = A.same_as(R)
+            out['suppression_timer_started'] = ev.sets == 1
+        else:
+            out['steady_state_kept_only_when_the_sender_is_not_behind'] = And(self.d['state'] is SvsState.SyncSteady, Not(behind))
+            out['steady_state_leaves_the_aggregate_alone'] = A.same_as(A0)
+            out['periodic_timer_restarted'] = ev.sets == 1
         return out
 
 
